@@ -188,3 +188,171 @@ Section Tok.
     - apply (Rok t r Hr).
   Qed.
 End Tok.
+
+(* ------------------------------------------------------------------ nodes, the environment *)
+Definition nodes_tok (E : list nat) (ns : list node) : Prop := forall i nd, nth_error ns i = Some nd -> node_tok E nd.
+
+Lemma nodes_tok_push E ns w c : nodes_tok E ns -> cmd_tok E c -> nodes_tok E (push_cmd w c ns).
+Proof.
+  intros N Hc i nd Hn. rewrite nth_error_push in Hn. destruct (nth_error ns i) as [nd0|] eqn:En; [|discriminate].
+  inversion Hn; subst nd; clear Hn. destruct (N i nd0 En) as (A&B&C).
+  destruct (i =? w); [|split; [|split]; assumption]. split; [|split]; simpl; try assumption.
+  apply Forall_app. split; [exact B|constructor; [exact Hc|constructor]].
+Qed.
+Lemma nodes_tok_fold_push {A} E (mk : A -> cmd) (wof : A -> wid) l : (forall a, cmd_tok E (mk a)) -> forall ns,
+  nodes_tok E ns -> nodes_tok E (fold_left (fun ns a => push_cmd (wof a) (mk a) ns) l ns).
+Proof. intros Hm. induction l as [|a l IH]; intros ns H; simpl; [exact H|]. apply IH. apply nodes_tok_push; [exact H|apply Hm]. Qed.
+Lemma nodes_tok_set_node E ns i nd' : nodes_tok E ns -> node_tok E nd' -> nodes_tok E (set_node i nd' ns).
+Proof.
+  intros N H j x Hx. destruct (Nat.eq_dec j i) as [->|Hne].
+  - destruct (nth_error ns i) as [nd|] eqn:Ei.
+    + rewrite (nth_set_node_same _ _ _ _ Ei) in Hx. inversion Hx; subst x. exact H.
+    + unfold set_node in Hx. rewrite (update_nth_none _ _ _ Ei) in Hx. congruence.
+  - rewrite nth_set_node_other in Hx by exact Hne. apply (N j x Hx).
+Qed.
+
+Lemma handle_event_tok E nw ev e ns e' ns' :
+  evt_tok E ev -> nodes_tok E ns -> pend_tok E e ->
+  handle_event nw ev (e, ns) = Good (e', ns') -> nodes_tok E ns' /\ pend_tok E e'.
+Proof.
+  intros Hev N P H. destruct ev; unfold handle_event in H; cbn -[Nat.modulo nodup] in H.
+  - revert H. match goal with |- context [@alookup ?A caller ?l] => destruct (@alookup A caller l) as [cw|] end; intros H; [|discriminate].
+    inversion H; subst e' ns'; clear H. split; [|exact P]. apply nodes_tok_push; [apply nodes_tok_push|exact I]; [exact N|exact I].
+  - destruct (alookup target (e_router e)) as [w|]; [|discriminate]. inversion H; subst e' ns'.
+    split; [apply nodes_tok_push; [exact N|exact I]|exact P].
+  - revert H. match goal with |- context [forallb ?f targets] => destruct (forallb f targets) end; intros H; [|discriminate].
+    inversion H; subst e' ns'; clear H. split.
+    + set (wof := fun t => match alookup t (e_router e) with Some w => w | None => 0 end).
+      apply (nodes_tok_fold_push E (fun w => CQuery awaiter (filter (fun t => wof t =? w) targets)) (fun w => w)); [intros w; exact I|exact N].
+    + intros p pa Hp w rs Hin. simpl in Hp. rewrite alookup_aset in Hp. destruct (p =? awaiter); [inversion Hp; subst pa; destruct Hin|apply (P p pa Hp w rs Hin)].
+  - simpl in Hev. destruct (alookup awaiter (e_pending e)) as [pa|] eqn:Epa.
+    + destruct (match results with [] => None | (t, _) :: _ => alookup t (e_router e) end) as [w|]; [|inversion H; subst; split; assumption].
+      set (old := match alookup w (pa_resp pa) with Some l => l | None => [] end) in *.
+      set (resp' := aset w (fold_left (fun a x => aset (fst x) (snd x) a) results old) (pa_resp pa)) in *.
+      assert (Hold: rs_ok E old).
+      { unfold old. destruct (alookup w (pa_resp pa)) as [l|] eqn:El; [|constructor]. apply (P awaiter pa Epa w l). apply alookup_in. exact El. }
+      assert (Hresp: forall w0 rs0, In (w0, rs0) resp' -> rs_ok E rs0).
+      { intros w0 rs0 Hin. apply in_aset in Hin. destruct Hin as [Hin|Hin]; [inversion Hin; subst; apply rs_ok_fold_aset; assumption|apply (P awaiter pa Epa w0 rs0 Hin)]. }
+      destruct (sremove w (pa_expected pa)).
+      * destruct (alookup awaiter (e_router e)) as [aw|]; [|discriminate]. inversion H; subst e' ns'; clear H. split.
+        -- apply nodes_tok_push; [exact N|]. simpl. apply rs_ok_merge; [exact Hresp|constructor].
+        -- intros p pa0 Hp. simpl in Hp. rewrite alookup_aremove in Hp. destruct (p =? awaiter); [discriminate|apply (P p pa0 Hp)].
+      * inversion H; subst e' ns'; clear H. split; [exact N|].
+        intros p pa0 Hp. simpl in Hp. rewrite alookup_aset in Hp. destruct (p =? awaiter); [inversion Hp; subst pa0; exact Hresp|apply (P p pa0 Hp)].
+    + destruct (alookup awaiter (e_router e)) as [aw|]; [|discriminate]. inversion H; subst e' ns'; clear H.
+      split; [apply nodes_tok_push; [exact N|exact Hev]|exact P].
+  - inversion H; subst e' ns'. split; assumption.
+  - inversion H; subst e' ns'. split; assumption.
+Qed.
+
+Lemma Forall_tl {A} (P : A -> Prop) a l : Forall P (a :: l) -> P a /\ Forall P l.
+Proof. intros H; inversion H; auto. Qed.
+
+Theorem TInv_mstep E s l s' : TInv E s -> mstep s l s' -> hon_label (origin_ok E) s l -> TInv E s'.
+Proof.
+  intros (N&P) M Hon.
+  destruct M as [ns e clk i nd c rest w' evs Hn Hc Hh
+                |ns e clk i nd o w' evs Hn Hx
+                |ns e clk i nd hint w' evs Hn Hk
+                |ns e clk i nd ev rest e' ns' Hn Hq He
+                |ns e clk d
+                |s c s' Hc]; simpl in *.
+  - destruct (N i nd Hn) as (A&B&C). rewrite Hc in B. destruct (Forall_tl _ _ _ B) as (B1&B2).
+    destruct (handle_cmd_tok E c (n_w nd) w' evs Hh B1 A) as (A'&C').
+    split; [|exact P]. apply nodes_tok_set_node; [exact N|]. split; [exact A'|]. split; [exact B2|apply Forall_app; split; assumption].
+  - destruct (N i nd Hn) as (A&B&C).
+    destruct (exec_step_tok E i clk o (n_w nd) w' evs Hx (Hon nd Hn) A) as (A'&C').
+    split; [|exact P]. apply nodes_tok_set_node; [exact N|]. split; [exact A'|]. split; [exact B|apply Forall_app; split; assumption].
+  - destruct (N i nd Hn) as (A&B&C).
+    destruct (check_completed_tok E hint (n_w nd) w' evs Hk A) as (A'&C').
+    split; [|exact P]. apply nodes_tok_set_node; [exact N|]. split; [exact A'|]. split; [exact B|apply Forall_app; split; assumption].
+  - destruct (N i nd Hn) as (A&B&C). rewrite Hq in C. destruct (Forall_tl _ _ _ C) as (C1&C2).
+    apply (handle_event_tok E (length ns) ev e (set_node i (mk_node (n_w nd) (n_cmd nd) rest) ns) e' ns' C1); [|exact P|exact He].
+    apply nodes_tok_set_node; [exact N|]. split; [exact A|]. split; [exact B|exact C2].
+  - split; assumption.
+  - unfold client_step in Hc. destruct c.
+    + inversion Hc; subst s'; simpl. split; [apply nodes_tok_push; [exact N|exact I]|exact P].
+    + inversion Hc; subst s'; simpl. split; [apply nodes_tok_push; [exact N|exact I]|exact P].
+    + inversion Hc; subst s'; simpl. split; [apply nodes_tok_push; [exact N|exact I]|exact P].
+    + destruct (alookup p (e_router (s_env s))); inversion Hc; subst s'; simpl; (split; [|exact P]); [apply nodes_tok_push; [exact N|exact I]|exact N].
+    + destruct (alookup p (e_router (s_env s))); inversion Hc; subst s'; simpl; (split; [|exact P]); [apply nodes_tok_push; [exact N|exact I]|exact N].
+Qed.
+
+Lemma TInv_init E nw : TInv E (init nw).
+Proof.
+  split; [|intros p pa H; discriminate]. intros i nd Hn. simpl in Hn. apply nth_error_In, repeat_spec in Hn. subst nd.
+  split; [intros p pr H; discriminate|]. split; constructor.
+Qed.
+
+(* the errors the time slices of a schedule finish with *)
+Definition origin_errs (sigma : list sched_action) : list nat :=
+  flat_map (fun a => match a with W _ _ o => match d_fin (o_did o) with Some (RErr e) => [e] | _ => [] end | _ => [] end) sigma.
+
+Lemma origin_hon E : forall sigma s, incl (origin_errs sigma) E -> hon_run (origin_ok E) s sigma.
+Proof.
+  induction sigma as [|a sigma IH]; intros s Hi; simpl; [exact I|]. split.
+  - destruct a as [i k o| | |]; simpl; auto.
+    destruct (nth_error (s_nodes s) i) as [nd|]; [|exact I]. destruct (handle_cmds _ _) as [[w1 e1]|]; [|exact I].
+    unfold origin_ok. destruct (d_fin (o_did o)) as [[v|e]|] eqn:Ef; simpl; auto.
+    apply Hi. simpl. rewrite Ef. left; reflexivity.
+  - destruct (sys_step s a) as [s'|]; [|exact I]. apply IH. intros x Hx. apply Hi. simpl. apply in_or_app. right; exact Hx.
+Qed.
+
+Theorem errors_originate_inv : forall nw sigma s, run (init nw) sigma = Good s -> TInv (origin_errs sigma) s.
+Proof.
+  intros nw sigma s H.
+  eapply (micro_invariant (TInv (origin_errs sigma)) (origin_ok (origin_errs sigma)) (TInv_mstep (origin_errs sigma)));
+    [apply TInv_init|apply origin_hon; intros x Hx; exact Hx|exact H].
+Qed.
+
+(* C15: the error a process ends with is the error some time slice of the schedule finished with *)
+Theorem errors_originate : forall nw sigma s,
+  run (init nw) sigma = Good s ->
+  forall i nd p pr e, nth_error (s_nodes s) i = Some nd -> alookup p (w_procs (n_w nd)) = Some pr ->
+    p_res pr = Some (RErr e) -> In e (origin_errs sigma).
+Proof.
+  intros nw sigma s H i nd p pr e Hn Hl Hr. destruct (errors_originate_inv nw sigma s H) as (N&_).
+  destruct (N i nd Hn) as (A&_). destruct (A p pr Hl) as (P1&_). rewrite Hr in P1. exact P1.
+Qed.
+
+(* ... and so is every error in flight *)
+Theorem errors_in_flight_originate : forall nw sigma s,
+  run (init nw) sigma = Good s ->
+  forall i nd, nth_error (s_nodes s) i = Some nd ->
+    (forall a rs t e, In (EResults a rs) (n_evt nd) -> In (t, Some (RErr e)) rs -> In e (origin_errs sigma)) /\
+    (forall a rs t e, In (CUpdate a rs) (n_cmd nd) -> In (t, Some (RErr e)) rs -> In e (origin_errs sigma)).
+Proof.
+  intros nw sigma s H i nd Hn. destruct (errors_originate_inv nw sigma s H) as (N&_). destruct (N i nd Hn) as (_&B&C).
+  rewrite Forall_forall in B, C. split.
+  - intros a rs t e Hin Hr. specialize (C _ Hin). simpl in C. unfold rs_ok in C. rewrite Forall_forall in C. apply (C _ Hr).
+  - intros a rs t e Hin Hr. specialize (B _ Hin). simpl in B. unfold rs_ok in B. rewrite Forall_forall in B. apply (B _ Hr).
+Qed.
+
+(* C15 awaiters_get_same_error, global form: when every failing slice of the schedule fails with e0
+   (in particular when exactly one process fails on its own), every failed process — every awaiter,
+   transitively, on every worker — has exactly the error e0 *)
+Theorem single_failure_same_error : forall nw sigma s e0,
+  run (init nw) sigma = Good s -> (forall e, In e (origin_errs sigma) -> e = e0) ->
+  forall i nd p pr e, nth_error (s_nodes s) i = Some nd -> alookup p (w_procs (n_w nd)) = Some pr ->
+    p_res pr = Some (RErr e) -> e = e0.
+Proof. intros nw sigma s e0 H Hs i nd p pr e Hn Hl Hr. apply Hs. eapply errors_originate; eassumption. Qed.
+
+(* non-vacuity: process 1 (worker 1) fails with error 7 while process 0 (worker 0) awaits it; the
+   failure travels check_completed -> environment -> Worker::notify_result and completes 0 *)
+Definition err_schedule : list sched_action :=
+  [ X (XStart false);
+    W 0 None (orc (Some 0) (d_act_ ASpawn)); E [];
+    W 1 None (orc (Some 1) {| d_taken := []; d_sel := Some (a_sel []); d_forget := []; d_act := None; d_park := true; d_fin := None; d_heapy := false |});
+    W 0 None (orc (Some 0) (d_act_ (ADeliver 1)));
+    W 0 None (orc (Some 0) {| d_taken := []; d_sel := Some (a_sel [1]); d_forget := []; d_act := Some (AAwait [1]); d_park := false; d_fin := None; d_heapy := false |});
+    E [];
+    W 1 None (orc (Some 1) {| d_taken := [0]; d_sel := None; d_forget := []; d_act := None; d_park := false; d_fin := Some (RErr 7); d_heapy := false |});
+    E [];
+    W 0 None (orc None idle_did) ].
+
+Example single_failure_applies :
+  origin_errs err_schedule = [7] /\
+  exists s nd0 pr0 nd1 pr1, run (init 2) err_schedule = Good s /\
+    nth_error (s_nodes s) 0 = Some nd0 /\ alookup 0 (w_procs (n_w nd0)) = Some pr0 /\ p_res pr0 = Some (RErr 7) /\
+    nth_error (s_nodes s) 1 = Some nd1 /\ alookup 1 (w_procs (n_w nd1)) = Some pr1 /\ p_res pr1 = Some (RErr 7).
+Proof. split; [reflexivity|]. vm_compute. do 5 eexists. repeat split. Qed.
